@@ -10,6 +10,20 @@ CHECKS = {
    note='Trusted: vsched shims model Go channel/mutex/atomic semantics; vrewrite instruments syntactically; keys from a 3-key alphabet; background work runs only at client blocking points or explicit Quiesce (other interleavings are C05). State merge ignores cache/pool contents.',
    design='4/C01'),
 }
+CHECKS.update({
+ 'C03': dict(level='model_checking', technique='explicit-state breadth-first search over operation sequences with snapshot/iterator views held across writes, flushes and compactions; model copy per view',
+   text='All sequences (to the stated depth) of writes, deletes, batches, CompactRange, Quiesce, Reopen, snapshot take/release (<=2 live) and iterator create/release (<=1 held) run on the real DB; after every transition each live snapshot and the held iterator are read back completely (point reads, forward and backward scan) and must equal the model copy taken at creation; the live DB must equal the current model.',
+   note='Keys {a,b}; two snapshots + one iterator at most; background work at blocking points / explicit Quiesce only; trusted: scheduler shims, sorted-map model.', design='4/C03'),
+ 'C04': dict(level='fault_enumeration', technique='exhaustive crash-point x torn-image enumeration over a recorded storage-operation log of the real write/flush/compaction/manifest path, recovery by the real Open, subset-explanation oracle',
+   text='For every history (all sequences to the depth + 6 long ones, several option sets) every storage-log position and every admissible durable image (tails lost/kept/cut at and inside write boundaries, +zeros/garbage) is recovered with leveldb.Open; the result must open, contain every sync-acknowledged batch and committed transaction, be explained by an in-order subset of issued batches, satisfy the LSM invariants and remain fully usable; thorough adds nested crashes inside recovery.',
+   note='Crash model: metadata ops durable+ordered on return, content durable to last Sync; default non-strict options; histories on the default schedule.', design='4/C04'),
+ 'C05': dict(level='exploration', technique='stateless model checking: DFS over scheduler choice lists with iterative deviation bounding on the instrumented real code, porcupine linearizability oracle per execution',
+   text='Closed drivers (2-3 clients, colliding keys, real background goroutines) are executed under every schedule within the deviation bound (every departure from the deterministic default scheduler costs 1; quick bound 2, 3 on the smallest driver); each execution yields a timestamped call/return history that must be linearizable w.r.t. a map-with-batches model (snapshot and iterator creation as single operations).',
+   note='Bounded: schedules needing more deviations than the completed bound are not covered. SC memory assumed; timers fire at quiescence; scheduling points before every lock/atomic/channel/select/waitgroup op.', design='4/C05'),
+ 'C08': dict(level='fault_enumeration', technique='exhaustive single-fault (thorough: double-fault) position enumeration over the real DB on a fault-injecting storage under the deterministic scheduler, subset-explanation oracle before and after reopen',
+   text='Per history one run per fault plan: k-th operation of each (kind,file type) x {fail once, fail 3x, half-written, performed-but-reported-failed, flipped read}; contents while running and after clean close + fault-free reopen must be explained by all acknowledged writes plus a subset of failed ones; reopen must succeed unless the fault itself tore durable bytes.',
+   note='Faults begin after the initial Open; virtual-time settling; known finding D11 (manifest edit durable but reported failed) is matched by signature.', design='4/C08'),
+})
 NA = {}
 
 def main():
